@@ -8,7 +8,8 @@ RULE = ("for each honest (seed, message) pair: the honest triple, all 512 single
         "(<= 16 bytes), S + k*L for every k with S + kL < 2^256; public keys and R drawn from the 8 small-order points, their non-canonical encodings "
         "(y+p, x=0 with sign bit), strings that are not points, the all-zero key; crafted (A small-order, S=0, R in the small subgroup) triples that satisfy the "
         "cofactorless equation; constructed (identity key, R = enc(S0*B), S0 + k*L) signatures for S0 = 2^k, 2^k - 1 and boundary values (canonical accepted, aliases rejected); pattern triples; the expected verdict is computed for every case by executing the statement in python (key decodes "
-        "permissively and is not all-zero, S < L, encode(S*B - h*A) == R bytewise); non-trivial = mutated or adversarial case; distinct = program text")
+        "permissively and is not all-zero, S < L, encode(S*B - h*A) == R bytewise); non-trivial = mutated or adversarial case; distinct = program text"
+        " Also: component shards from C15: canonical-scalar decoder sets, wide reduction, digit recodings (hook), point codec; the corpus again on the checked-arithmetic, force-32bits and native builds.")
 ASSUMPTIONS = ["python RFC 8032 arithmetic as in C13", "point decoding is permissive (y reduced mod p, x = 0 accepted with either sign), as in ref10 and this crate; "
                "the property lists non-canonical encodings separately from non-points"]
 
